@@ -22,7 +22,8 @@ GNext ==
   \/ \E i \in 1..3 : \E c \in {RS(Leaves)} : CanSubscribe(R, c) /\ (c \in Auto => ~Subscribed(R, c)) /\ Log([a |-> "Subscribe", c |-> c], Subscribe(R, c))
   \/ \E c \in {RS(Leaves)} : CanSubscribe(R, c) /\ Log([a |-> "Unsubscribe", c |-> c], Unsubscribe(R, c))
   \/ \E i \in 1..2 : \E r \in {RS(Relays)} : CanConnect(R, r) /\ Log([a |-> "Connect", r |-> r], Connect(R, r))
-  \/ \E r \in {RS(Relays)} : R.conn[r] /\ Log([a |-> "Disconnect", r |-> r], Disconnect(R, r))
+  \* the relay stops, or (hard) the TCP connection is cut in the middle first
+  \/ \E r \in {RS(Relays)} : R.conn[r] /\ Log([a |-> "Disconnect", r |-> r, hard |-> RS(BOOLEAN)], Disconnect(R, r))
   \/ \E i \in 1..2 : Fresh # {} /\ \E t \in {RS(Fresh)} : Log([a |-> "AddB", t |-> t], AddBroadcast(R, t))
   \* targeted tasks: half of them at a node that has (or may have) a LocalCollector, which answers on its own
   \/ \E i \in 1..2 : Fresh # {} /\ \E t \in {RS(Fresh)}, tg \in {RS(IF RS(1..2) = 1 THEN {Src(c) : c \in Auto} ELSE Sources)} :
